@@ -400,6 +400,9 @@ func (w *world) step(i int, s Stim) StepObs {
 	n.Tr.Fail = map[string][]bool{}
 	if s.OpenFail {
 		n.Tr.Fail["open"] = []bool{true}
+		if s.Kind == "Close" || s.Kind == "CloseErr" { // for a close: the transport does not know the channel (CloseChannel answers channel-not-found)
+			n.Tr.Fail["close"] = []bool{true}
+		}
 	}
 	tgt, hasT := w.target(s)
 	o.Target = tgt
